@@ -1,47 +1,2 @@
-(* GENERATED by tools/gotrans (gotrans mintsites <repo> <out.v>) from the Go sources - DO NOT EDIT.
-   Regenerated by ./check on every run; the committed copy only makes a fresh `make` work. *)
-From Coq Require Import String List.
-From Elys Require Import Models.Supply.
-Import ListNotations.
-Open Scope string_scope.
-
-Definition sites : list site := [
-  mkSite "app/test_setup.go" "addTestAddrs" "app" "" Mint (TWrap "initAccountWithCoins") [DOther "bondDenom"] [DOther "bondDenom"] false RTestOnly;
-  mkSite "app/test_setup.go" "initAccountWithCoins" "app" "minttypes.ModuleName" Mint TBank [DParam "initAccountWithCoins"] [DOther "bondDenom"] false RTestOnly;
-  mkSite "x/amm/keeper/pool.go" "MatchAmmBalances" "amm" "amm" Mint TBank [DOther "asset.Token.Denom"] [DOther "asset.Token.Denom"] false RMigOnly;
-  mkSite "x/amm/keeper/pool.go" "MatchAmmBalances" "amm" "amm" Burn TBank [DOther "asset.Token.Denom"] [DOther "asset.Token.Denom"] false RMigOnly;
-  mkSite "x/amm/keeper/pool_share.go" "MintPoolShareToAccount" "amm" "amm" Mint TBank [DPoolShare] [DPoolShare] false REntry;
-  mkSite "x/amm/keeper/pool_share.go" "BurnPoolShareFromAccount" "amm" "amm" Burn TBank [DPoolShare] [DPoolShare] false REntry;
-  mkSite "x/burner/keeper/burn.go" "BurnTokensForAllDenoms" "burner" "" Burn (TWrap "burnTokensForDenom") [DZeroBal] [DZeroBal] false REntry;
-  mkSite "x/burner/keeper/burn.go" "burnTokensForDenom" "burner" "" Burn (TWrap "burnCoins") [DParam "burnTokensForDenom"] [DZeroBal] false REntry;
-  mkSite "x/burner/keeper/burn.go" "burnCoins" "burner" "burner" Burn TBank [DParam "burnCoins"] [DZeroBal] false REntry;
-  mkSite "x/commitment/keeper/keeper.go" "MintCoins" "commitment" "param:moduleName" Mint TBank [DParam "MintCoins"] [DEden; DEdenB] true REntry;
-  mkSite "x/commitment/keeper/keeper.go" "BurnCoins" "commitment" "param:moduleName" Burn TBank [DParam "BurnCoins"] [] true REntry;
-  mkSite "x/commitment/keeper/msg_server_claim_vesting.go" "ClaimVesting" "commitment" "commitment" Mint TBank [DElys] [DElys] false REntry;
-  mkSite "x/commitment/keeper/msg_server_vest_now.go" "VestNow" "commitment" "commitment" Mint TBank [DElysGuarded] [DElysGuarded] false REntry;
-  mkSite "x/estaking/keeper/abci.go" "UpdateStakersRewards" "estaking" "ccvconsumertypes.ConsumerToSendToProviderName" Mint (TWrap "MintCoins") [DEden] [DEden] true REntry;
-  mkSite "x/estaking/keeper/abci.go" "UpdateStakersRewards" "estaking" "ccvconsumertypes.ConsumerRedistributeName" Mint (TWrap "MintCoins") [DEden; DEdenB] [DEden; DEdenB] true REntry;
-  mkSite "x/masterchef/keeper/abci.go" "UpdateLPRewards" "masterchef" "masterchef" Mint (TWrap "MintCoins") [DEden] [DEden] true REntry;
-  mkSite "x/stablestake/keeper/msg_server_bond.go" "Bond" "stablestake" "stablestake" Mint TBank [DVaultShare] [DVaultShare] false REntry;
-  mkSite "x/stablestake/keeper/msg_server_unbond.go" "Unbond" "stablestake" "stablestake" Burn TBank [DVaultShare] [DVaultShare] false REntry
-].
-
-(* app/modules.go maccPerms: module account expression, resolved name, permissions *)
-Definition macc_perms : list (string * string * list string) := [
-  ("ammmoduletypes.ModuleName", "amm", ["Minter"; "Burner"; "Staking"]);
-  ("authtypes.FeeCollectorName", "", []);
-  ("burnermoduletypes.ModuleName", "burner", ["Burner"]);
-  ("ccvconsumertypes.ConsumerRedistributeName", "", ["Burner"]);
-  ("ccvconsumertypes.ConsumerToSendToProviderName", "", []);
-  ("commitmentmoduletypes.ModuleName", "commitment", ["Minter"; "Burner"]);
-  ("distrtypes.ModuleName", "", []);
-  ("govtypes.ModuleName", "", ["Burner"]);
-  ("ibcfeetypes.ModuleName", "", []);
-  ("ibctransfertypes.ModuleName", "", ["Minter"; "Burner"]);
-  ("icatypes.ModuleName", "", []);
-  ("masterchefmoduletypes.ModuleName", "masterchef", ["Minter"; "Burner"]);
-  ("minttypes.ModuleName", "", ["Minter"]);
-  ("stablestaketypes.ModuleName", "stablestake", ["Minter"; "Burner"]);
-  ("stakingtypes.BondedPoolName", "", ["Burner"; "Staking"]);
-  ("stakingtypes.NotBondedPoolName", "", ["Burner"; "Staking"])
-].
+(* gotrans failed on the current tree *)
+Definition handlers := gotrans_failed_on_the_current_tree_see_log.
